@@ -38,6 +38,10 @@ type recEnc struct {
 var errInjected = errors.New("injected write failure")
 
 func (e *recEnc) Encode(v any) error {
+	// a schedule point for the concurrent mode: the write itself (inside the correlator call)
+	if h := common.VerifHook; h != nil {
+		h(e, "Encode")
+	}
 	e.mu.Lock()
 	defer e.mu.Unlock()
 	if e.budget == 0 {
@@ -470,7 +474,10 @@ func main() {
 		os.Exit(doReplay(*replay, *prop))
 	}
 	if *mode == "conc" {
-		concMain(*out, *n, seed)
+		if os.Getenv("VERIF_CONC_CHILD") == "" {
+			os.Exit(concParent(*out, *prop, seed))
+		}
+		concMain(*out, *n, seed, *prop)
 		return
 	}
 	r := hutil.NewRand(seed ^ hashStr(*prop))
@@ -594,7 +601,10 @@ func doReplay(path, prop string) int {
 		prop = rp.Property
 	}
 	if rp.Replay.Conc != nil {
-		return replayConc(*rp.Replay.Conc)
+		if os.Getenv("VERIF_CONC_CHILD") == "" {
+			return replayConcParent()
+		}
+		return replayConc(*rp.Replay.Conc, prop)
 	}
 	if rp.Replay.History == nil {
 		fmt.Println("replay file carries no history (no failing input was found)")
